@@ -11,6 +11,7 @@ from ..explorer import explore, run_once
 from ..progen import dag_program, dag_shapes, out_name, shape_names
 
 PID = "C14"
+BOTH_CONSTRUCTION_PATHS = True  # every program once with constructor-built and once with decorator-built nodes (mc/dsl.py VIA)
 LEVEL = "model_checking"
 TECHNIQUE = "exhaustive exploration of pause/answer histories on the real AsyncRunner under a virtual loop: every handler call is an environment choice (answer or pause), every paused run is resumed with the response under the reported key until completion; sibling completion orders within a deviation bound"
 LEVEL_TEXT = (
